@@ -127,7 +127,7 @@ ATOMS_MORE = ['FooUnknown', 'FooSkip', 'FooObj', 'GSList*', 'GArray*', 'GByteArr
               'GVariant*', 'GQuark', 'FooE']
 ANNS_QUICK = ['', '(skip)', '(transfer none)', '(transfer full)', '(scope call)', '(element-type utf8)',
               '(element-type gpointer)', '(type FooUnknown)', '(element-type FooUnknown)', '(element-type FooSkip)',
-              '(nullable)', '(out)']
+              '(nullable)', '(out)', '(type Foo.NoSuch)', '(element-type Foo.NoSuch)', '(type GLib.NoSuch)']
 ANNS_MORE = ['(type utf8)', '(type FooSkip)', '(type FooVaCb)', '(array)', '(scope async)', '(transfer container)',
              '(element-type Foo.Obj)', '(element-type GLib.List)', '(type GLib.List(FooUnknown))',
              '(type GLib.HashTable(utf8,FooSkip))', '(inout)', '(closure)', '(not nullable)',
@@ -219,17 +219,10 @@ def part_b(tier):
                 'ptr': td('FooPtrAl', top + '*'),
             }
             # orders: the chain is totally ordered by C; every user mentions `top`, so it follows the chain;
-            # the struct typedef may precede everything (tags may be used before definition)
-            ids = ['chain', 'fn', 'ret', 'meth', 'cb', 'std', 'sbody', 'ptr']
-            before = [('chain', x) for x in ('fn', 'ret', 'meth', 'cb', 'sbody', 'ptr')]
-            if tier == 'thorough':
-                orders = linear_extensions(ids, before)
-                orders = [o for o in orders if o.index('std') in (0, o.index('sbody') - 1, len(o) - 1) or True]
-                # 7!-ish is too many per (length, end): take every order of the three that matter
-                # (struct typedef position x which user is first), all others fixed
-                orders = _orders_b()
-            else:
-                orders = _orders_b()[:6]
+            # the struct typedef may precede everything (tags may be used before definition).  Enumerated:
+            # every rotation of the user order x the struct typedef first / right after the chain /
+            # directly before the struct body (18 orders; the quick tier takes the first 6)
+            orders = _orders_b() if tier == 'thorough' else _orders_b()[:6]
             for o in orders:
                 decls = list(ENV) + EXTRA_CBS
                 for x in o:
@@ -364,8 +357,6 @@ def part_c(tier):
                                                         ['fcb', 'vhead', 'void',
                                                          [['FooThing*', 'self']] + [list(p) for p in triple(1)], False]]),
                     }
-                    ids = list(range(1, n + 1)) + ['fn', 'meth', 'sbody', 'cbody']
-                    before = [(j, i) for (i, j) in edges] + [(1, h) for h in ('fn', 'meth', 'sbody', 'cbody')]
                     cb_orders = linear_extensions(range(1, n + 1), [(j, i) for (i, j) in edges])
                     # heads follow callback 1 (they mention it); vary the callback order fully and the
                     # head placement over: all heads last / each head directly after callback 1
@@ -376,15 +367,12 @@ def part_c(tier):
                             else:
                                 k = co.index(1) + 1
                                 order = list(co[:k]) + ['cbody', 'sbody', 'meth', 'fn'] + list(co[k:])
-                                if order == list(co) + ['cbody', 'sbody', 'meth', 'fn'] and n > 2:
-                                    pass
                             decls = [td('FooHS', 'struct _FooHS')] + CLASS_DECLS_HEAD + ENV + [GET_TYPE]
                             for x in order:
                                 decls.append(cbs[x] if isinstance(x, int) else heads[x])
                             cases.append({'part': 'C', 'decls': decls, 'comments': com, 'dump': dump_xml(),
                                           'note': 'callbacks %d, edges %s, bad node %d (%s), order %s' % (
                                               n, edges, badnode, kind, ' '.join(str(x) for x in order))})
-                    del ids, before
     return cases
 
 
